@@ -4,17 +4,20 @@ From UV Require Export Base.Common Model.Roller.
    with it (Serve 0 = handshake completed and the client used the connection, Serve T = the server
    completed it but the client had given up, Refuse 0 = closed without completing, Silent = read the
    hello and never answered), what Dial returned, and the working id recorded afterwards.
-   Fingerprints are given as the id-with-seed that produces them. *)
+   Fingerprints are given as the id-with-seed that produces them.
+   Dt = TcpDialTimeout (ms), listening = the server's listener stayed open during the whole call,
+   elapsed = how long the call took (ms, rounded down). *)
 Inductive case :=
   CDial (ids : list hid) (working : option hid) (T : N) (trace : list (hid * peer_beh))
-        (connected : option hid) (tcp_err : bool) (working_after : option hid).
+        (connected : option hid) (tcp_err : bool) (working_after : option hid)
+        (Dt : N) (listening : bool) (elapsed : N).
 
 Definition ohid_eqb (a b : option hid) : bool :=
   match a, b with Some x, Some y => hid_eqb x y | None, None => true | _, _ => false end.
 
 Definition check (c : case) : bool :=
   match c with
-  | CDial ids w T tr conn tcpe wa =>
-      trace_ok ids w T tr conn tcpe &&
+  | CDial ids w T tr conn tcpe wa Dt listening elapsed =>
+      trace_ok ids w T tr conn tcpe && time_ok T Dt tr tcpe listening elapsed &&
       ohid_eqb wa (match conn with Some i => Some i | None => w end)
   end.
